@@ -25,10 +25,10 @@
 package c07
 
 import (
-	"math/bits"
 	"encoding/hex"
 	"encoding/json"
 	"fmt"
+	"math/bits"
 	"strconv"
 	"strings"
 	"testing"
@@ -52,8 +52,10 @@ type Case struct {
 	Src    string   `json:"src,omitempty"`    // explicit source (generated / hostile programs)
 	Pad    int      `json:"pad,omitempty"`    // pad section: number of terms of the padding sum
 	Limits []uint64 `json:"limits,omitempty"` // parse section: ParseExprLimit values, ascending
-	Cfg    vmx.Cfg  `json:"cfg"`
-	Note   string   `json:"note,omitempty"`
+	// RX (parse section): the VM has a custom dice syntax R<operand> whose stream parser reads the operand with ReadExpr
+	RX   bool    `json:"rx,omitempty"`
+	Cfg  vmx.Cfg `json:"cfg"`
+	Note string  `json:"note,omitempty"`
 }
 
 func (c Case) key() string {
@@ -72,6 +74,8 @@ type outcome struct {
 	rolls   int64
 	cnt     int64
 	vm      *ds.Context
+	// parse meter: expressions evaluated by all parsers built during the run, and how many parsers that were
+	psteps, parsers int64
 }
 
 func (o outcome) W() int64 { return o.ops + o.rolls }
@@ -100,13 +104,49 @@ func clip(s string, n int) string {
 func budgetOf(cfg vmx.Cfg) int64 { return int64(cfg.OpLimit) }
 
 // execute runs src on a fresh VM of the configuration with the meter armed at 64·B + 10^4.
-func execute(cfg vmx.Cfg, src string) outcome {
+func execute(cfg vmx.Cfg, src string) outcome { return executeRX(cfg, src, false) }
+
+// regRX registers R<operand>: the operand is whatever ReadExpr reads, the value is that expression evaluated.
+func regRX(vm *ds.Context) {
+	_ = vm.RegCustomDiceParser(func(ctx *ds.Context, st *ds.CustomDiceStream) (*ds.CustomDiceParseResult, error) {
+		if r, ok := st.Read(); !ok || r != 'R' {
+			return &ds.CustomDiceParseResult{Matched: false}, nil
+		}
+		v, ok, err := st.ReadExpr("")
+		if err != nil {
+			return nil, err
+		}
+		if !ok || v == nil {
+			return &ds.CustomDiceParseResult{Matched: false}, nil
+		}
+		return &ds.CustomDiceParseResult{Matched: true, Payload: v}, nil
+	}, func(ctx *ds.Context, groups []string, payload any) (*ds.VMValue, string, error) {
+		v, _ := payload.(*ds.VMValue)
+		if v == nil {
+			return ds.NewNullVal(), "", nil
+		}
+		r := v.ComputedExecute(ctx, nil)
+		if ctx.Error != nil {
+			return nil, "", ctx.Error
+		}
+		if r == nil {
+			return ds.NewNullVal(), "", nil
+		}
+		return r, "", nil
+	})
+}
+
+func executeRX(cfg vmx.Cfg, src string, rx bool) outcome {
 	vm := cfg.NewVM()
+	if rx {
+		regRX(vm)
+	}
 	o := outcome{vm: vm}
 	B := budgetOf(cfg)
 	ds.VerifMeterReset(64*B + 10_000)
 	o.pi = rt.Guard(func() { o.err = vm.Run(src) })
 	o.ops, o.rolls = ds.VerifOpsDone.Load(), ds.VerifRollsDone.Load()
+	o.psteps, o.parsers = ds.VerifParseSteps.Load(), ds.VerifParsersMade.Load()
 	ds.VerifMeterReset(0)
 	o.cnt = int64(vm.NumOpCount)
 	if o.pi != nil {
@@ -884,9 +924,9 @@ type parseOut struct {
 
 func (p parseOut) ok() bool { return p.errText == "" && p.panicky == "" }
 
-func runParse(cfg vmx.Cfg, src string, limit uint64) (parseOut, outcome) {
+func runParse(cfg vmx.Cfg, src string, limit uint64, rx bool) (parseOut, outcome) {
 	cfg.ParseLimit = limit
-	o := execute(cfg, src)
+	o := executeRX(cfg, src, rx)
 	var p parseOut
 	switch {
 	case o.pi != nil:
@@ -909,16 +949,27 @@ func checkParse(c Case, s *rt.Section) *rt.Failure {
 			return s.NewFailure("replay", "replay:unknown-family", c, c.Fam, "a known family")
 		}
 	}
-	base, o0 := runParse(c.Cfg, src, 0)
+	base, o0 := runParse(c.Cfg, src, 0, c.RX)
 	if f := budgetOracles(c, s, src, o0); f != nil {
 		return f
 	}
 	prevOK := false
 	var prevL uint64
 	for _, L := range c.Limits {
-		p, o := runParse(c.Cfg, src, L)
+		p, o := runParse(c.Cfg, src, L, c.RX)
 		if o.ceiling {
 			return budgetOracles(c, s, src, o)
+		}
+		// every parser built during the run (the program's, the second compilation of a consumed prefix, bodies compiled
+		// at first use, the sub-parses of a custom syntax's ReadExpr) works under the limit: none evaluates more than
+		// L+1 expressions
+		if int64(L) < 1<<40 && o.psteps > o.parsers*int64(L+1) {
+			return s.NewFailure("parse-budget", "parse:work-exceeds-limit", c,
+				fmt.Sprintf("ParseExprLimit %d: %d parsers evaluated %d expressions (outcome %s)", L, o.parsers, o.psteps, o),
+				fmt.Sprintf("at most parsers·(L+1) = %d", o.parsers*int64(L+1)))
+		}
+		if o.psteps > int64(L) {
+			parseWorkOver = true
 		}
 		if p.panicky != "" {
 			return s.NewFailure("parse-budget", o.pi.Sig(), c, fmt.Sprintf("ParseExprLimit %d: panic %s", L, p.panicky), "an error")
@@ -943,6 +994,39 @@ func checkParse(c Case, s *rt.Section) *rt.Failure {
 		}
 	}
 	return nil
+}
+
+// injectR writes R before up to three '(' of src that open an operand (not a call: the byte before is not part of a word).
+func injectR(t *rapid.T, src string) string {
+	var spots []int
+	for i := 0; i < len(src); i++ {
+		if src[i] != '(' {
+			continue
+		}
+		if i > 0 {
+			b := src[i-1]
+			if b == '_' || b == ')' || b == ']' || b == '\'' || b == '"' || b == '`' || b >= 0x80 || (b >= '0' && b <= '9') || (b >= 'a' && b <= 'z') || (b >= 'A' && b <= 'Z') {
+				continue
+			}
+		}
+		spots = append(spots, i)
+	}
+	if len(spots) == 0 {
+		return "R(" + src + ")"
+	}
+	n := rapid.IntRange(1, 3).Draw(t, "nR")
+	chosen := map[int]bool{}
+	for k := 0; k < n; k++ {
+		chosen[spots[rapid.IntRange(0, len(spots)-1).Draw(t, "rSpot")]] = true
+	}
+	var sb strings.Builder
+	for i := 0; i < len(src); i++ {
+		if chosen[i] {
+			sb.WriteByte('R')
+		}
+		sb.WriteByte(src[i])
+	}
+	return sb.String()
 }
 
 // sameModuloMapOrder: dir(), keys()/values()/items() and the text of a multi-key dict list their
@@ -1373,7 +1457,7 @@ func TestProp(t *testing.T) {
 	})
 
 	// ---------------------------------------------------------------- parse
-	parseRule := "a source (generated program with optional broken-off tail, closed-form family member, hostile template) evaluated with ParseExprLimit 0 and then under an ascending list of 2..5 limits drawn from {1..200, 500, 5000, 2·10^4..2·10^6, 10^7} on fresh VMs of the same seed: under a limit the outcome is an error or exactly the unlimited outcome (result, variables, Matched, RestInput), never a panic, and once accepted it stays accepted under every larger limit; non-trivial = some limit rejected a source that the unlimited parser accepts; distinct by (source, limits, configuration)"
+	parseRule := "a source (generated program with optional broken-off tail, closed-form family member, hostile template; one in four on a VM with a custom dice syntax R<operand> that reads its operand with ReadExpr, R written before parenthesised operands) evaluated with ParseExprLimit 0 and then under an ascending list of 2..5 limits drawn from {1..200, 500, 5000, 2·10^4..2·10^6, 10^7} on fresh VMs of the same seed: under a limit the outcome is an error or exactly the unlimited outcome (result, variables, Matched, RestInput), never a panic, once accepted it stays accepted under every larger limit, and all parsers built during a run under limit L (verif parse meter) together evaluate at most parsers·(L+1) expressions; non-trivial = some limit rejected a source that the unlimited parser accepts; distinct by (source, limits, configuration)"
 	run.Check("parse", 1200, 40000, parseRule, func(t *rapid.T, s *rt.Section) {
 		c := Case{Cfg: vmx.Cfg{OpLimit: 30000, CoC: true, WoD: true, Fate: true, DC: true,
 			Mode:    rapid.SampledFrom([]string{"", "min", "max"}).Draw(t, "mode"),
@@ -1413,6 +1497,17 @@ func TestProp(t *testing.T) {
 				s.Class("generated")
 			}
 		}
+		// one source in four is read by a VM with the R<operand> syntax, R written before some parenthesised operands and,
+		// half of the time, before a long parenthesised sum of its own (a sub-parse that dwarfs the host's)
+		if c.Fam == "" && rapid.IntRange(0, 3).Draw(t, "rx") == 0 {
+			c.RX = true
+			c.Src = injectR(t, c.Src)
+			if rapid.Bool().Draw(t, "rxBig") {
+				n := rapid.IntRange(20, 400).Draw(t, "rxTerms")
+				c.Src = "R(" + strings.Repeat("1+", n) + "1); " + c.Src
+			}
+			s.Class("custom-readexpr")
+		}
 		nl := rapid.IntRange(2, 5).Draw(t, "nLimits")
 		set := map[uint64]bool{}
 		for i := 0; i < nl; i++ {
@@ -1435,8 +1530,11 @@ func TestProp(t *testing.T) {
 		sortU64(c.Limits)
 		s.Eval()
 		s.Crumb(c)
-		parseRejected = false
+		parseRejected, parseWorkOver = false, false
 		fail := checkParse(c, s)
+		if parseWorkOver {
+			s.Class("several-parsers-exceed-one-limit-together")
+		}
 		h := rt.Hash(c.key())
 		if fail == nil && parseRejected {
 			s.Class("limit-rejected-an-accepted-source")
@@ -1495,6 +1593,7 @@ func unbound(t *rapid.T, p *gen.Node) {
 var (
 	lastOutcome   outcome
 	parseRejected bool
+	parseWorkOver bool // some run evaluated more expressions than one parser's limit (several parsers at work)
 )
 
 // ---------------------------------------------------------------------------
